@@ -14,10 +14,10 @@ package main
 // are written.
 
 import (
-	"math"
 	"fmt"
 	"go/token"
 	"go/types"
+	"math"
 	"math/big"
 	"regexp"
 	"sort"
